@@ -21,13 +21,17 @@ DRIVERS = ["driver_metrics"]
 RULE = ("positive net-value series of length 2..2000 (1..3 and empty in the malformed stream) from nine shape generators (random walk, rising, "
         "falling, constant, V, late-peak where the largest absolute and the largest relative decline differ, two-scale, ties on a coarse "
         "grid, integers), six sampling intervals (1 min .. 7 d), benchmarks, plus a malformed stream (zeros, negatives, zero duration/interval, "
-        "length mismatch); bucket = (function, shape, length class, outcome class, where the drawdown sits / which input form)")
+        "length mismatch, an index with coinciding / decreasing stamps); performance_metrics is called with rf given, rf = 0 and rf left to its default, with and "
+        "without benchmark, on regular (date_range) and irregular (random increasing gaps) indexes; fixed cases where the APR's pow overflows (minute index) "
+        "while beta stays finite; bucket = (function, shape, length class, outcome class, where the drawdown sits / which input form / index kind, rf kind)")
 TRUSTED = [
     "theorems are about the exact-rational semantics of the formulas and of the max-drawdown scan; float rounding of numpy/pandas is measured "
     "(1e-9 relative against the exact model fed with the floats' exact values), not proved",
     "sqrt and pow are oracle parameters in the theorems; the driver evaluates them with Lean Float (libm pow, IEEE sqrt)",
     "pandas Series.std/pct_change/shift/prod and numpy.cov are assumed to implement their documented formulas (the oracle recomputes them "
     "from the definitions on every case)",
+    "beta is recomputed (covariance ratio, exact) and compared whenever both return variances are non-degenerate, also when an APR overflows; alpha only "
+    "when both APRs are finite (otherwise it must be nan/inf)",
     "tolerances: 1e-9 relative; for quantities formed by a cancelling subtraction (rate = multiple - 1, total return and APR = gross - 1, Sharpe "
     "numerator, alpha) 1e-9 of the operands' magnitude (1 for returns); series whose return variance is below 1e-12 of the squared mean are compared by outcome class only",
 ]
